@@ -28,6 +28,8 @@ class POutput(Base):
 class ProbeNode(BaseNode):
     """Deterministic node whose output depends on everything it is handed (state, params, seq, ts, every window entry)."""
 
+    OUT_SHAPE = ()
+
     def init_params(self, rng=None, graph_state=None):
         return PParams(a=jnp.array(0.5, dtype=jnp.float32))
 
@@ -35,16 +37,21 @@ class ProbeNode(BaseNode):
         return PState(x=jnp.array(0.25, dtype=jnp.float32))
 
     def init_output(self, rng=None, graph_state=None):
-        return POutput(y=jnp.array(-1.0, dtype=jnp.float32))
+        return POutput(y=-jnp.ones(self.OUT_SHAPE, dtype=jnp.float32))
 
     def step(self, step_state: StepState) -> Tuple[StepState, POutput]:
         s = step_state.state.x * step_state.params.a + step_state.ts + step_state.seq.astype(jnp.float32) * 0.125
         for name, inp in step_state.inputs.items():
             w = jnp.arange(1, inp.seq.shape[0] + 1, dtype=jnp.float32)
-            s = s + jnp.sum(inp.data.y * w) + jnp.sum(inp.ts_recv * w) * 0.5 + jnp.sum(inp.seq.astype(jnp.float32) * w) * 0.0625
+            wy = w.reshape((-1,) + (1,) * (inp.data.y.ndim - 1))
+            s = s + jnp.sum(inp.data.y * wy) + jnp.sum(inp.ts_recv * w) * 0.5 + jnp.sum(inp.seq.astype(jnp.float32) * w) * 0.0625
             s = s + jnp.sum(inp.ts_sent * w) * 0.25
         new_state = PState(x=s)
-        return step_state.replace(state=new_state), POutput(y=s)
+        return step_state.replace(state=new_state), POutput(y=s * jnp.ones(self.OUT_SHAPE, dtype=jnp.float32))
+
+
+class ProbeNodeVec(ProbeNode):
+    OUT_SHAPE = (2,)
 
 
 def oracle_callback(tag, shape=(), dtype=jnp.float32):
